@@ -103,6 +103,8 @@ def _finish_sig(sig, p, file_base=None, line=None):
         # and it is only consulted for imports of whole modules
         sig["positions"] = prog_positions(p)
         sig["import"] = import_form(p, file_base, line)
+        if sig["import"] != "whole module":
+            sig["site"] = "ast.IterateImportedDecls (%s import, comparator not consulted)" % sig["import"]
     if sig["site"] == "unclassified":
         sig["family"] = p["family"]
     return sig
@@ -154,7 +156,9 @@ def classify_inproc(first, other, p):
 
 
 def norm_text(s, d):
-    return s.replace(os.path.realpath(d), "<DIR>").replace(d, "<DIR>")
+    """only the scratch directory and the names of the C toolchain's temporary files are normalised"""
+    s = s.replace(os.path.realpath(d), "<DIR>").replace(d, "<DIR>")
+    return re.sub(r"/tmp/cc[A-Za-z0-9]{6}\.[a-z0-9.]+", "<TMPFILE>", s)
 
 
 def classify_fresh(r0, r1, p, inproc_sig):
@@ -185,8 +189,8 @@ def classify_fresh(r0, r1, p, inproc_sig):
     if len(sites) == 1:
         s, e = next(iter(sites))
         sig = _finish_sig({"kind": kind, "site": s, "effect": e}, p)
-        if inproc_sig is not None and inproc_sig.get("site") == s and "import" in inproc_sig:
-            sig["import"] = inproc_sig["import"]
+        if inproc_sig is not None and inproc_sig.get("site", "").startswith("ast.IterateImportedDecls") and s.startswith("ast.IterateImportedDecls"):
+            sig["import"], sig["site"] = inproc_sig["import"], inproc_sig["site"]
         return sig
     if only0 and only1 and all("Fehler beim Kompilieren von" in (r[1].splitlines() or [""])[0] for r in (r0, r1)):
         return _finish_sig({"kind": kind, "site": "linker.LinkDDPFiles dependency map", "effect": "which faulty extern C file is reported"}, p)
